@@ -265,28 +265,32 @@ def r4_connective_is_quantifier(ctx):
         bracketed = True
         for k in (1, 2, 3):
             members = tuple(f"m{i}" for i in range(k))
-            stubs = {
-                "generate_checking_code": lambda t: "cg:" + t,
-                "combine": lambda tpl, lst: ("combine", tpl, tuple(lst)),
-                "isinstance": lambda x, cl: True,
-            }
-            got = Interp("Order", stubs=stubs).run(cg.node, {rv: "SELF", f"{rv}.types": members, f"{rv}.__args__": members, "types": members})
-            ok = isinstance(got, tuple) and got[:1] == ("combine",)
-            if ok:
-                tpl, lst = got[1], got[2]
-                core = tpl[1:-1] if tpl.startswith("(") and tpl.endswith(")") else tpl
-                if not (tpl.startswith("(") and tpl.endswith(")")) and k > 1:
-                    bracketed = False
-                ok = core == f" {conn} ".join(["{}"] * k) and lst == tuple("cg:" + m for m in members)
-            if not ok and bad is None:
-                bad = (k, got)
+            # which members are value-dependent must not matter: every member's check is part of the answer
+            for deps in itertools.product((True, False), repeat=k):
+                depset = {m for m, d in zip(members, deps) if d}
+                stubs = {
+                    "generate_checking_code": lambda t: "cg:" + t,
+                    "combine": lambda tpl, lst: ("combine", tpl, tuple(lst)),
+                    "isinstance": lambda x, cl: True,
+                    "is_dependent": lambda t, depset=depset: t in depset,
+                }
+                got = Interp("Order", stubs=stubs).run(cg.node, {rv: "SELF", f"{rv}.types": members, f"{rv}.__args__": members, "types": members})
+                ok = isinstance(got, tuple) and got[:1] == ("combine",)
+                if ok:
+                    tpl, lst = got[1], got[2]
+                    core = tpl[1:-1] if tpl.startswith("(") and tpl.endswith(")") else tpl
+                    if not (tpl.startswith("(") and tpl.endswith(")")) and k > 1:
+                        bracketed = False
+                    ok = core == f" {conn} ".join(["{}"] * k) and lst == tuple("cg:" + m for m in members)
+                if not ok and bad is None:
+                    bad = (f"{k} member(s), of which {sorted(depset) or 'none'} value-dependent", got)
         n += 1
         ctx.ob(
             f"{cg.key}:connective",
             cg.loc(),
             f"{c.name}'s emitted check joins the checks of all its members, in order, with `{conn}` (interpreted for 1, 2 and 3 members)",
             bad is None,
-            f"{c.name}.codegen produces {bad[1] if bad else ''} for {bad[0] if bad else ''} member(s): the generated check is not the `{conn}` of all member checks, so it disagrees with isinstance()",
+            f"{c.name}.codegen produces {bad[1] if bad else ''} for {bad[0] if bad else ''}: the generated check is not the `{conn}` of all member checks, so it disagrees with isinstance()",
         )
         if conn == "or":
             n += 1
